@@ -16,11 +16,12 @@ Definition nat_of_status (s : status) : nat :=
   | Exception => 7
   end%nat.
 
-(* script item: status code, ε, err written?, y written?, iterations, out-of-time flag observed by the driver *)
-Definition sitem := (nat * float * option (list float) * option (list float) * nat * bool)%type.
+(* script item: status code, ε, err written?, y written?, iterations, out-of-time flag observed by the driver,
+   "ALMSolver::stop() had been called by the time this inner solve returned" (the scripted solver calls it from inside a solve) *)
+Definition sitem := (nat * float * option (list float) * option (list float) * nat * bool * bool)%type.
 Definition res_of (it : sitem) : inner_res (T:=float) :=
-  let '(s, e, er, y, k, oot) := it in
-  {| ir_status := status_of_nat s; ir_eps := e; ir_err := er; ir_y := y; ir_iters := k; ir_oot := oot |}.
+  let '(s, e, er, y, k, oot, stp) := it in
+  {| ir_status := status_of_nat s; ir_eps := e; ir_err := er; ir_y := y; ir_iters := k; ir_oot := oot; ir_stop := stp |}.
 
 (* one logged inner-solver call: y, Σ, opts.tolerance, err_z on entry, opts.outer_iter *)
 Definition callrec := (list float * list float * float * list float * nat)%type.
